@@ -191,6 +191,12 @@ def run(res, tier):
                 reg = pykoop.Dmdc(mode_type='projected').fit(X1, n_inputs=nu_, episode_feature=True)
         except Exception:  # noqa
             continue
+        # (the domain of the ordinary cases: finite result, no numerically zero singular value retained)
+        svs_ = [t.singular_values_ for t in (getattr(reg, 'tsvd_', None), getattr(reg, 'tsvd_unshifted_', None),
+                                             getattr(reg, 'tsvd_shifted_', None)) if t is not None]
+        if not np.all(np.isfinite(reg.coef_)) or any(sv.size == 0 or np.min(sv) <= 1e-9 * np.max(sv) for sv in svs_) \
+                or check_fit(reg, X1, ns_, nu_, type(reg).__name__):
+            continue          # nothing to preserve: the first fit is outside the domain (or already reported above)
         reg.set_params(mode_type=['Exact', 'EXACT', 'Projected', 'exact '][h % 4])
         try:
             reg.fit(3.0 * X1[::-1].copy() if X2.shape[1] != X1.shape[1] else X2, n_inputs=nu_, episode_feature=True)
